@@ -359,7 +359,8 @@ func (s Exons) SplicedLen() int {
 // location match.  If and error occurs it returns the old slice (without the
 // new exons) and the error.
 func (s Exons) Add(exons ...Exon) (Exons, error) {
-	newSlice := append(s, exons...)
+	newSlice := make(Exons, 0, len(s)+len(exons))
+	newSlice = append(append(newSlice, s...), exons...)
 	sort.Sort(newSlice)
 	for i, e := range newSlice {
 		if i != 0 && e.Start() < newSlice[i-1].End() {
